@@ -3,8 +3,17 @@
 property text and a scratch worktree only, nothing from /verif)."""
 import json, sys
 pid = sys.argv[1]; n = int(sys.argv[2]) if len(sys.argv) > 2 else 5
+rnd = sys.argv[3] if len(sys.argv) > 3 else ""      # e.g. "r2": second round, avoids the first round's mechanisms
+import glob, os
+avoid = ""
+if rnd:
+    prev = []
+    for d in sorted(glob.glob('/verif/seeded/%s-*/meta.json' % pid)):
+        m = json.load(open(d)); prev.append("- " + (m.get('summary') or m.get('needs', ''))[:300].replace("\n", " "))
+    if prev:
+        avoid = "\nAn earlier round already produced the following changes; yours must differ from ALL of them in location and mechanism (different functions, different kinds of slip):\n" + "\n".join(prev) + "\n"
 p = [json.loads(l) for l in open('/verif/properties.jsonl') if json.loads(l)['id'] == pid][0]
-wt = "/tmp/wt/red-" + pid; out = "/tmp/red/" + pid
+wt = "/tmp/wt/red-" + pid + rnd; out = "/tmp/red/" + pid + rnd
 print(f"""You are testing how well a verification effort can detect subtle bugs. You work ONLY inside the scratch git worktree {wt} (a checkout of the Go library github.com/squadracorsepolito/acmelib: CAN network modelling, DBC parser/writer, signal layout/decoding, protobuf save/load, markdown export) and the output directory {out} (create it). Do not read or write anything under /verif or /repo, and do not look at other directories under /tmp/wt or /tmp/red.
 
 Go environment for every shell call: `export GOFLAGS=-mod=mod GOPROXY=off` (do NOT set GOTOOLCHAIN or GOSUMDB; there is no network). The existing test suite is `cd {wt} && go test -count=1 ./...` and passes.
@@ -15,5 +24,6 @@ Quantifier: {p['quantifier']['text']}
 Code it is anchored in: {', '.join(p['anchors']['files'])}.
 
 Task: produce {n} DIFFERENT source changes (mutants) to the library (non-test .go files), each of which (a) still compiles, (b) still passes the whole existing test suite unedited, (c) breaks the property above (observable through the public API of package acmelib / its subpackages), and (d) needs something specific to manifest — a particular multi-step sequence of operations, an unusual but legal input or boundary value, a particular state (e.g. only after a rename, only for nested multiplexers, only for big-endian signals crossing a byte boundary, only with two entities sharing a definition), or two cooperating sites that each look fine alone — NOT something the first ordinary use would expose at once. Make them realistic (the kind of slip a maintainer could make in a refactor or an 'optimisation'), small, and distinct from each other in mechanism and location.
+{avoid}
 For each mutant i = 1..{n} write to {out}/m<i>/: `patch.diff` (output of `git diff` in the worktree, must apply cleanly with `git apply` to the unmodified checkout), `demo_test.go` (a Go test file — state in meta.json into which package directory it must be dropped and the exact `go test -run …` command — that FAILS with the change and PASSES without it; verify both), and `meta.json` {{"property":"{pid}","summary":"…","needs":"what is required for the bug to manifest","demo_dest":"<path inside the repo where demo_test.go goes, e.g. demo_verif_test.go or dbc/demo_verif_test.go>","demo_run":"go test -count=1 -run <TestName> ./<pkg>/","verified":"commands you ran and their outcome"}}. After producing each mutant, reset the worktree (`git checkout -- . && git clean -fd`) so that each patch is relative to the unmodified tree. Confirm for each: `go build ./... && go test -count=1 ./...` passes with the patch applied (without the demo); the demo fails with the patch and passes without.
 Report: a short list of the {n} mutants (one line each) and confirmation of the verification steps.""")
